@@ -470,6 +470,29 @@ def _make_world(seed, kind):
                 for j in range(10):
                     w.make_read(chrom, list(rt), truth={"class": "read-through-of-two-genes"}, **tail)
                 p += 5900 + 3500
+        # a gene-free spliced read cluster that begins 40 bp after the last read of an annotated gene's cluster ends; the end of the first
+        # cluster sits at chosen offsets within the 256-bp grid (214..217 and 10 modulo 256), so that every shift that is not a multiple
+        # of 256 moves the two facing ends of at least one pair from one grid cell into two (or back): clusters are separated by real overlap only
+        for ci, chrom in enumerate(w.chrom_order[:1]):
+            p = max([g.end for g in w.genes + thin if g.chrom == chrom] + [1000]) + 3000
+            for k, target in enumerate((214, 215, 216, 217, 10)):
+                if p + 4500 > w.chrom_len(chrom):
+                    break
+                p += (target - (p + 1200)) % 256
+                strand = "+-"[k % 2]
+                ea = [(p, p + 400), (p + 900, p + 1200)]
+                g = Gene("NEAR%d_%d" % (ci + 1, k + 1), chrom, strand)
+                g.transcripts.append(Transcript(g.id + ".t1", g.id, chrom, strand, ea, True, "gene-next-to-a-gene-free-cluster"))
+                w.plant_sites(chrom, g.transcripts[0].introns[0], strand)
+                w.genes.append(g)
+                for j in range(6):
+                    w.make_read(chrom, list(ea), truth={"src": g.id + ".t1", "class": "exact"})
+                q = ea[1][1] + 41
+                eb = [(q, q + 300), (q + 700, q + 1000)]
+                w.plant_sites(chrom, (eb[0][1] + 1, eb[1][0] - 1), strand)
+                for j in range(6):
+                    w.make_read(chrom, list(eb), truth={"class": "gene-free-cluster-40bp-after-a-gene"})
+                p = eb[1][1] + 3000
         # the zoo loci that contain no exact positional tie (they bring their own error-free reads)
         w.genes += thin
         world2.add_zoo(w, ("ambiguous_only", "contested", "intronic", "apa", "same_coords"))
